@@ -29,10 +29,11 @@ Fixpoint ops_all (enc : N -> bool) (c : cid cstate) (w : wstate cstate) (ops : l
                       end in
       let '(wf, es) := ops_all enc c w' rest in (wf, e :: es)
   end.
-(* the target: a text stream that takes every character, or one encoded in ASCII *)
-Definition run (i : cid cstate * bool * list nat * text * list wop * bool) : obs :=
-  let '(c, fixed, ws, sep, rows, ascii) := i in
-  let enc := if ascii then (fun ch : N => N.ltb ch 128) else (fun _ : N => true) in
+(* the target: a text stream that takes every character, or one in an encoding (ASCII, cp1252, latin-1) that cannot
+   represent the characters listed in [bad] (of those that occur in the rows) *)
+Definition run (i : cid cstate * bool * list nat * text * list wop * list N) : obs :=
+  let '(c, fixed, ws, sep, rows, bad) := i in
+  let enc := fun ch : N => negb (existsb (N.eqb ch) bad) in
   let '(wf, es) := ops_all enc c (writer_init c []) rows in
   let text := if fixed then Some (fixed_text ws sep (Validio.w_rows wf))
               else delimited_text (as_delimited_keywords 44 34 34 false) (Validio.w_rows wf) in
@@ -40,7 +41,7 @@ Definition run (i : cid cstate * bool * list nat * text * list wop * bool) : obs
 Definition obs_eqb (a b : obs) : bool :=
   let '(e, t, c) := a in let '(e', t', c') := b in
   list_eqb (option_eqb err_eqb) e e' && option_eqb text_eqb t t' && option_eqb err_eqb c c'."""
-CASE_TYPE = "(cid cstate * bool * list nat * text * list wop * bool) * obs"
+CASE_TYPE = "(cid cstate * bool * list nat * text * list wop * list N) * obs"
 MODEL = "run"
 EQB = "obs_eqb"
 SHARD = 250
@@ -62,14 +63,16 @@ SEP = {"lf": "\n", "cr": "\r", "crlf": "\r\n", "any": "\n", None: "\n", "none": 
 def make_case(inp):
     spec, rows = inp["spec"], inp["rows"]
     cid = V.build_cid(spec)
-    ascii_target = bool(inp.get("ascii"))
+    ascii_target = inp.get("ascii")
+    if ascii_target is True:
+        ascii_target = "ascii"
     file_target = bool(inp.get("file"))
     if file_target:
         # the writer is given a path: it opens the file itself, with the encoding the CID declares (UTF-8 here)
         os.makedirs(TMP, exist_ok=True)
         target = os.path.join(TMP, "out_%d.txt" % os.getpid())
     else:
-        target = io.TextIOWrapper(io.BytesIO(), encoding="ascii", newline="") if ascii_target else io.StringIO(newline="")
+        target = io.TextIOWrapper(io.BytesIO(), encoding=ascii_target, newline="") if ascii_target else io.StringIO(newline="")
     writer = validio.Writer(cid, target)
     writes = []
     ops = inp.get("ops") or [["row", r] for r in rows]
@@ -84,7 +87,7 @@ def make_case(inp):
             writes.append(V.canon_error(e, spec))
     if ascii_target:
         target.flush()
-        text = target.buffer.getvalue().decode("ascii")
+        text = target.buffer.getvalue().decode(ascii_target)
     elif not file_target:
         text = target.getvalue()
     closed = None
@@ -101,10 +104,17 @@ def make_case(inp):
     sep = SEP[spec.get("line_delimiter")] if fixed else ""
     obs = {"writes": writes, "text": text, "close": closed}
     coq_ops = L(ops, lambda o: "(WRow %s)" % L(o[1], S) if o[0] == "row" else "(WRows %s)" % L(o[1], lambda r: L(r, S)))
-    coq_in = P(V.coq_cid(spec), B(fixed), L(ws, Nat), S(sep), coq_ops, B(ascii_target))
+    bad = []
+    if ascii_target:
+        for ch in sorted({ch for o in ops for r in ([o[1]] if o[0] == "row" else o[1]) for c in r for ch in c}):
+            try:
+                ch.encode(ascii_target)
+            except UnicodeError:
+                bad.append(ord(ch))
+    coq_in = P(V.coq_cid(spec), B(fixed), L(ws, Nat), S(sep), coq_ops, L(bad, lambda n: "%d%%N" % n))
     coq_obs = P(L(writes, lambda e: O(e, V.coq_err)), "(Some %s)" % S(text), O(closed, V.coq_err))
     n_ok = sum(1 for w in writes if w is None)
-    tags = [spec["format"], "header%d" % spec.get("header", 0)] + (["ascii-target"] if ascii_target else []) + (["file-target"] if file_target else []) + (["ld-" + str(spec.get("line_delimiter"))] if fixed else [])
+    tags = [spec["format"], "header%d" % spec.get("header", 0)] + ([ascii_target + "-target"] if ascii_target else []) + (["file-target"] if file_target else []) + (["ld-" + str(spec.get("line_delimiter"))] if fixed else [])
     return {"coq": P(coq_in, coq_obs), "obs": obs, "nontrivial": 0 < n_ok < len(writes), "tags": tags}
 
 
@@ -174,6 +184,12 @@ def gen_inputs(tier, rnd):
                      [["abcdef", "xy\u00e4"], ["abcdef", "xyz"], ["", "\u00e4"], ["", ""]], [["\u00e4b", "c"], ["a", "c"], ["\u00e4", ""], ["ab", "c"]]):
             yield {"spec": spec, "rows": rows, "ascii": True}
             yield {"spec": spec, "rows": rows, "ascii": True, "ops": [["rows", rows[:2]], ["row", rows[2]], ["rows", rows[3:]]]}
+        # encodings that have the composed letter but no combining mark, the euro sign or not: what cannot be written as
+        # it stands is refused, not respelled
+        for enc in ("cp1252", "latin-1", "cp437"):
+            for rows in ([["Ame\u0301l", "ie"], ["Am\u00e9l", "ie"], ["a", "\u20ac"], ["abc", "d"]], [["a", "o\u0308"], ["a", "\u00f6"], ["\u0152", "x"], ["", ""]],
+                         [["\u212b", "x"], ["\u00c5", "x"], ["A\u030a", "x"], ["\ufb01", "y"]]):
+                yield {"spec": spec, "rows": rows, "ascii": enc}
     for _ in range(700 if tier == "quick" else 8000):
         spec = V.gen_spec(rnd, header=rnd.choice([0, 0, 1, 1, 2, 3]))
         if spec["format"] == "fixed":
@@ -212,12 +228,12 @@ def gen_inputs(tier, rnd):
         elif rnd.random() < 0.25:
             # the target is a stream encoded in ASCII; some rows carry a character it cannot represent, mostly not in
             # the first item: such a row is refused as a whole
-            case["ascii"] = True
+            case["ascii"] = rnd.choice([True, True, "cp1252", "latin-1"])
             for i in range(spec["header"], len(rows)):
                 if rows[i] and rnd.random() < 0.4:
                     j = rnd.randrange(1, len(rows[i])) if len(rows[i]) > 1 and rnd.random() < 0.8 else rnd.randrange(len(rows[i]))
                     rows[i] = list(rows[i])
-                    rows[i][j] = (rows[i][j][:-1] if rows[i][j] else "") + rnd.choice(["ä", "€", "ÿ"])
+                    rows[i][j] = (rows[i][j][:-1] if rows[i][j] else "") + rnd.choice(["ä", "€", "ÿ", "e\u0301", "\u0308", "\u212b"])
         if rnd.random() < 0.5 and rows:
             ops, i = [], 0
             while i < len(rows):
